@@ -64,6 +64,8 @@ USER_MAPS = [
     {"xsi": A},                         # the prefix the library generates for a well-known namespace, bound by the user to a namespace in use
     {"xs": B, "xsi": "urn:not-xsi"},
     {None: B, "ns2": A},
+    {"x": "http://www.w3.org/XML/1998/namespace"},   # the xml namespace under another prefix (must not be declared)
+    {"x": "http://www.w3.org/2000/xmlns/", "p": A},  # the xmlns namespace cannot be declared at all
 ]
 
 
